@@ -295,6 +295,15 @@ class Gen(object):
         r = self.rng
         n = int(np.prod(shape))
         kinds = None
+        if n == 0:
+            # an empty array: a float64 / int64 / object ndarray or an empty (nested) list
+            k0 = r.random()
+            if k0 < 0.6:
+                return ['a', r.choice(['float64', 'int64', 'float64']), list(shape), []]
+
+            def empty(sh):
+                return ['l', []] if len(sh) == 1 or sh[0] == 0 else ['l', [empty(sh[1:]) for _ in range(sh[0])]]
+            return empty(list(shape))
         if r.random() < 0.35:
             # exactly one special element (separates any() from all())
             kinds = ['exact'] * n
